@@ -104,7 +104,8 @@ def callee_table(L):
 
 
 def props(unchecked, name):
-    sim = ('C01', 'C08') + (('C17',) if name.startswith('write') else ()) + (('C15',) if unchecked else ())
+    # terminal calls: the typechecker drops what follows them and appends no return (C16); they are how a run ends without halting (C03)
+    sim = ('C01', 'C08') + (('C17',) if name.startswith('write') else ()) + (('C15',) if unchecked else ()) + (('C16', 'C03') if name.startswith('all_is') else ())
     return {'SIM': sim, 'INV': ('C08',), 'NOBOT': ('C03',), 'SAFE': ('C04',), 'NOERR': ('C10',)}
 
 
